@@ -657,33 +657,33 @@ func c10Child() int {
 		if err != nil {
 			panic(err)
 		}
-		for i := 0; i < vlib.Scale(60, 2500); i++ {
+		for i := 0; i < vlib.Scale(60, 800); i++ {
 			c10StoreHistory(ev, driver, s, i)
 		}
-		for i := 0; i < vlib.Scale(40, 1000); i++ {
+		for i := 0; i < vlib.Scale(40, 400); i++ {
 			c10Snapshots(ev, driver, s, i, true)
 		}
-		for i := 0; i < vlib.Scale(150, 4000); i++ {
+		for i := 0; i < vlib.Scale(150, 1500); i++ {
 			c10LinkRace(ev, driver, s, i)
 		}
-		for i := 0; i < vlib.Scale(60, 1500); i++ {
+		for i := 0; i < vlib.Scale(60, 500); i++ {
 			c10NodeRace(ev, driver, s, i)
 		}
 		cleanup()
 		for _, tr := range []string{"local", "remote", "tcp", "http"} {
-			for i := 0; i < vlib.Scale(6, 120); i++ {
+			for i := 0; i < vlib.Scale(6, 40); i++ {
 				c10PoolRound(ev, driver, tr, i)
 			}
 		}
 		// other concurrent workloads of this harness, for the race detector
-		for i := 0; i < vlib.Scale(6, 60); i++ {
+		for i := 0; i < vlib.Scale(6, 20); i++ {
 			c01Concurrent(ev, driver, 1000+i)
 			c05Concurrent(ev, driver, 1000+i)
 			c07Concurrent(ev, driver, 1000+i)
 			c09Racing(ev, driver, 1000+i)
 		}
 	}
-	for i := 0; i < vlib.Scale(10, 100); i++ {
+	for i := 0; i < vlib.Scale(10, 40); i++ {
 		c14Round(ev, "memnet", 1000+i)
 	}
 	if err := ev.Export(os.Getenv("VERIF_CHILD_OUT")); err != nil {
